@@ -247,6 +247,10 @@ class GraphMachine(MarkupMachine):
             ignore_invalid_triggers=ignore_invalid_triggers,
             **kwargs
         )
+        if getattr(self, "scoped", self) is not self:
+            # hierarchical machines add the children of a nested state definition through recursive calls while
+            # scoped into that state; the outermost call regenerates the graphs once the whole tree exists
+            return
         for model in self.models:
             model.get_graph(force_new=True)
 
